@@ -31,6 +31,8 @@ fn base_table() -> Vec<(&'static str, RunFn)> {
         ("C03", props::c03::run as RunFn),
         ("C04", props::c04::run as RunFn),
         ("C05", props::c05::run as RunFn),
+        ("C07", props::c07::run as RunFn),
+        ("C08", props::c08::run as RunFn),
         ("C12", props::c12::run as RunFn),
     ]
 }
